@@ -53,6 +53,7 @@ def run(chk: Check) -> None:
     run_saved_indexes(chk, ix)
     run_set_pop_guarded(chk, ix)
     run_blocker_rollback(chk, ix)
+    run_parser_prevents(chk, ix)
 
     r1 = chk.rule("R20.1", "every loop that re-queues deferred work has a per-iteration counter compared with a constant bound that exits the loop; type-checker deferral is limited by pass_num < last_pass", floor=7)
     n_loops = 0
@@ -585,3 +586,29 @@ def run_blocker_rollback(chk: Check, ix) -> None:
         r9.violation(key, f.loc(rf[0]), "restore() no longer deletes the module from both tables")
     if n < 2:
         raise AnalysisError(f"update_module_isolated: only {n} roll-back obligations found")
+
+
+def run_parser_prevents(chk: Check, ix) -> None:
+    """R20.10: what the checker assumes the parser prevents, both parsers reject with a diagnostic."""
+    r10 = chk.rule("R20.10", "checkpattern asserts that a sequence pattern has at most one starred sub-pattern ('Parser should prevent multiple starred patterns'); Python's ast module and the native parser both accept `case [*a, *b]:` (only the byte-code compiler rejects it), so each front end counts the StarredPattern items where it builds a SequencePattern and reports a diagnostic for two or more, and does not itself assert on the count: otherwise that input reaches the assertion (INTERNAL ERROR; the daemon dies)", floor=3)
+    cp = ix.module("mypy.checkpattern")
+    assumes = [a for f in ix.functions.values() if f.module is cp for a in ast.walk(f.node) if isinstance(a, ast.Assert) and isinstance(a.msg, ast.Constant) and "Parser should prevent" in str(a.msg.value)]
+    if not assumes:
+        r10.info("checkpattern no longer assumes the parser prevents multiple starred patterns", cp.relpath, "nothing to protect")
+        return
+    r10.ok("the checker's assumption: " + str(assumes[0].msg.value), f"{cp.relpath}:{assumes[0].lineno}")
+    for q in ("mypy.fastparse.ASTConverter.visit_MatchSequence", "mypy.nativeparse.read_pattern"):
+        f = ix.func(q)
+        builds = [c for c in ast.walk(f.node) if isinstance(c, ast.Call) and call_name(c) == "SequencePattern"]
+        if not builds:
+            raise AnalysisError(f"{q}: SequencePattern construction not found")
+        counts = [c for c in ast.walk(f.node) if isinstance(c, ast.Call) and call_name(c) == "isinstance" and len(c.args) == 2 and norm(c.args[1]) == "StarredPattern"]
+        reports = [c for c in ast.walk(f.node) if isinstance(c, ast.Call) and call_name(c) in ("fail", "add_error") and any(isinstance(x, ast.Constant) and isinstance(x.value, str) and "starred" in x.value.lower() for x in ast.walk(c))]
+        asserts = [a for a in ast.walk(f.node) if isinstance(a, ast.Assert) and "stars" in norm(a.test)]
+        key = f"{q}: two or more starred sub-patterns are reported, not asserted"
+        if asserts:
+            r10.violation(key, f.loc(asserts[0]), f"`{norm(asserts[0])}`: the ast module accepts `case [*a, *b]:`, so this assertion is reachable from input")
+        elif counts and reports:
+            r10.ok(key, f.loc(reports[0]))
+        else:
+            r10.violation(key, f.loc(builds[0]), "the SequencePattern is built without counting its StarredPattern items: `case [*a, *b]:` reaches the checker's assertion 'Parser should prevent multiple starred patterns'")
